@@ -269,6 +269,9 @@ def triage(ctx: Ctx, w: Write, kind: str, why: str, schema: Schema):
     tgt = text(w.target)
     # 1. descriptor stores on the instance it is given (E-R3 wants exactly this)
     if mod == TYPES and qn.endswith(".__set__") and kind == "param":
+        from .match import Expander as _Ex
+
+        tgt = _Ex(ctx.fn).t(w.target)
         ok = tgt.startswith(f"{ctx.params[1]}.__dict__[self.name]") or tgt == f"{ctx.params[1]}.__dict__"
         return ok, "descriptor stores the value on the owning instance under its own name" if ok else f"descriptor __set__ writes {tgt}"
     # 2. class decorator at definition time
